@@ -166,4 +166,22 @@ def wfKV : List (Val × Val) → Bool
   | (a, b) :: kvs => a.wf && b.wf && wfKV kvs
 end
 
+mutual
+/-- well-formed type: the keys of every TypedDict field list are pairwise distinct
+    (they are Python dicts; `make_typed_dict`, typing.py:55-69) -/
+def Ty.wf : Ty → Bool
+  | .list t | .set t | .tupleOf t | .iterator t => t.wf
+  | .dict k v | .ddict k v => k.wf && v.wf
+  | .generator y s r => y.wf && s.wf && r.wf
+  | .tuple ts | .union ts => wfTL ts
+  | .td r o => wfTF r && wfTF o && decide ((r.map Prod.fst).Nodup) && decide ((o.map Prod.fst).Nodup)
+  | _ => true
+def wfTL : List Ty → Bool
+  | [] => true
+  | t :: ts => t.wf && wfTL ts
+def wfTF : List (String × Ty) → Bool
+  | [] => true
+  | (_, t) :: fs => t.wf && wfTF fs
+end
+
 end MT
